@@ -223,3 +223,65 @@ def c11(work, tier, seed, replay):
 @prop("C12")
 def c12(work, tier, seed, replay):
     return client_check(work, tier, seed, replay, "C12")
+
+
+@prop("C13")
+def c13(work, tier, seed, replay):
+    from .props_v4 import validate, replay_file
+    quick = tier == "quick"
+    if replay:
+        return replay_file(work, "Trace_Lease", replay)
+    mcs = [common.require_mc(common.tlc(work, "MC_Lease", cfg=c, workers=4, timeout=900), c) for c in ("MC_Lease4", "MC_Lease6", "MC_Lease6r")]
+    cases = []
+    # every script with one reply per transmission (exhaustive), plus simulated scripts with two
+    r = common.require_mc(common.tlc(work, "MC_Lease", cfg="MC_LeaseAll4", workers=4, timeout=900), "MC_LeaseAll4")
+    mcs.append(r)
+    cases += [json.loads(c)[5:] for c in r["cases"]]
+    nexh = len(cases)
+    for cfg, n in (("MC_LeaseSim4", 500 if quick else 20000), ("MC_LeaseSim6", 150 if quick else 0), ("MC_LeaseSim6r", 150 if quick else 0)):
+        if n:
+            s = common.tlc(work, "MC_Lease", cfg=cfg, workers=1, timeout=1200, extra=["-simulate", "num=%d" % n, "-depth", "40", "-seed", str(seed)])
+            cases += [json.loads(c)[5:] for c in s["cases"]]
+    if not quick:
+        for cfg in ("MC_LeaseSim6", "MC_LeaseSim6r"):     # exhaustive for DHCPv6
+            r = common.require_mc(common.tlc(work, "MC_Lease", cfg=cfg, workers=8, timeout=1800, heap="8g"), cfg)
+            mcs.append(r)
+            cases += [json.loads(c)[5:] for c in r["cases"]]
+    cases = sorted(set(cases))
+    if len(cases) < 300:
+        raise Infra("TLC produced only %d server behaviours" % len(cases))
+    cf = work.path("lease.cases")
+    open(cf, "w").write("\n".join(cases) + "\n")
+    binp = common.build_test(work, "./leasesim/", "lease.test")
+    out = work.path("lease.ndjson")
+    p = common.run([binp, "-test.run", "TestLeaseSim$", "-test.timeout", "50m"], cwd=work.dir, timeout=3300,
+                   env=dict(VH_OUT=out, VH_CASES=cf, VERIF_SEED=str(seed)))
+    viol = []
+    if p.returncode != 0:
+        why = crashed(p)
+        if why is None:
+            raise Infra("leasesim failed:\n" + p.stdout[-3000:])
+        viol.append((why, [p.stdout[-4000:]]))
+    lines = open(out).read().splitlines()
+    stats = dict(lines=len(lines), distinct=len(cases), distinct_nontrivial=0, classes={}, samples=[])
+    bad, tstates, tgen, lines = common.tlc_trace(work, "Trace_Lease", out, procs=4 if quick else 12, workers=2)
+    for i in bad:
+        e = json.loads(lines[i - 1])
+        viol.append(("server behaviour %s: expected transmissions %s outcome %s (offer #%s, final #%s); the client did: %s %s" % (
+            json.dumps(e["exp"]["script"])[:400], e["exp"]["txs"], e["exp"]["result"], e["exp"]["oi"], e["exp"]["fi"],
+            json.dumps(e["obs"]["res"]), json.dumps([t.get("pkt", {}).get("opts") or t.get("mt") for t in e["obs"]["txs"]])[:500]), [lines[i - 1]]))
+    nontriv = sum(1 for c in cases if '"second"' in c)
+    cov = dict(states=sum(r["distinct"] for r in mcs), transitions=sum(r["generated"] for r in mcs),
+               mc_runs=[dict(cfg=r["cfg"], distinct=r["distinct"], generated=r["generated"]) for r in mcs],
+               traces_validated_against_impl=len(lines), trace_states=tstates, tlc_behaviours_replayed=len(cases),
+               exhaustive_one_reply_per_transmission=nexh, evaluations=len(lines), distinct=len(cases), distinct_nontrivial=nontriv,
+               rule="one evaluation = one server behaviour enumerated by TLC from spec/Lease.tla (after every client transmission 0..2 replies "
+                    "drawn from OFFER/ACK/NAK of servers A, B or without server id, a type the client never asks for, and replies failing the "
+                    "transaction filter: wrong id, wrong hardware address, BOOTREQUEST, undecodable; DHCPv6: ADVERTISE/REPLY/RECONFIGURE) played "
+                    "by a reactive scripted connection against the real nclient4.Request (every third also Renew + Release) and nclient6 "
+                    "Solicit+Request / RapidSolicit in virtual time; non-trivial = the exchange reaches the REQUEST; distinct by script",
+               samples=[common.trim_sample(json.loads(l), 1800) for l in lines[:2]])
+    return dict(violations=viol, coverage=cov, assumptions=[
+        "2 tries per exchange, 1 s timeout in testing/synctest virtual time; the scripted connection answers each transmission immediately",
+        "message contents are judged by Dhcp4Build/Dhcp6Build operators on the library's decoding of the accepted OFFER / the specification's decoding (Dec6) of the ADVERTISE and REQUEST bytes",
+        "the SendAndRead contract (first acceptable datagram, retries) is established separately by C10-C12"])
